@@ -282,6 +282,15 @@ LbCase(m, j) ==
       ids |-> [q \in 1..Len(P) |-> [u |-> P[q][1], v |-> P[q][2], val |-> DInt(m, form(P[q][1], P[q][2]))]]]
 
 \* ------------------------------------------------------------------------------------------------------------------
+\* info: the result objects are values.  ScalarErrorInfo converts between data types (constructor and assignment),
+\* FunctionCellIntegralInfo is copied (constructor and assignment): the target equals the source in every field.  The cases give
+\* the flags and the values (numerators over 8); "expected = source" is the whole specification.  (Independent of the mesh:
+\* emitted once, with the mesh q11.)
+InfoJobs(m) == {[k |-> "info", cls |-> cls, how |-> how, flags |-> fl, vals |-> vs] :
+                  cls \in {"scalar", "cell"}, how \in {"construct", "assign"},
+                  fl \in {<<1, 0, 0, 1, 1>>, <<1, 1, 1, 1, 1>>}, vs \in {<<20, 12, 8, 3, 1>>, <<0, 0, 0, 0, 0>>}}
+InfoCase(m, j) == [kind |-> "info", space |-> "", cls |-> j.cls, how |-> j.how, flags |-> j.flags, vals |-> j.vals]
+
 Jobs(m) ==
   (IF "err" \in Kinds THEN {j \in ErrJobs(m) : ErrJobOK(m, j)} ELSE {})
   \cup (IF "verr" \in Kinds THEN {j \in VErrJobs(m) : VErrJobOK(m, j)} ELSE {})
@@ -296,7 +305,7 @@ Init ==
        /\ Catalogue[k].t <= Tier /\ Catalogue[k].m.name \in MeshSel
        /\ (Catalogue[k].m.dim = 2 \/ Catalogue[k].m.class = "box")           \* domain moments: unit boxes, or 2D straight-sided
        /\ msh = Variant(Catalogue[k].m, v) /\ vk = v
-  /\ job \in Jobs(msh)
+  /\ job \in Jobs(msh) \cup (IF "info" \in Kinds /\ vk = 0 /\ msh.name = "q11" THEN InfoJobs(msh) ELSE {})
 Next == UNCHANGED vars
 Spec == Init /\ [][Next]_vars
 
@@ -305,6 +314,7 @@ MeshJson == [name |-> msh.name, shape |-> msh.shape, dim |-> msh.dim, class |-> 
 CaseOf(m, j) ==
   CASE j.k = "err" -> ErrCase(m, j) [] j.k = "verr" -> VErrCase(m, j) [] j.k = "unit" -> UnitCase(m, j)
     [] j.k = "slip" -> SlipCase(m, j) [] j.k = "mean" -> MeanCase(m, j) [] j.k = "bop" -> BopCase(m, j) [] j.k = "lb" -> LbCase(m, j)
+    [] j.k = "info" -> InfoCase(m, j)
 Emit == PrintT(ToJson([mesh |-> MeshJson, variant |-> vk] @@ CaseOf(msh, job)))
 
 \* laws of the specification itself
